@@ -63,7 +63,7 @@ TrStart ==
     /\ phase' = "idle" /\ pend' = "none"
     /\ cache' = FreshCache(text')
     /\ sess' = FreshSess(text')
-    /\ taint' = {} /\ mech' = {} /\ steps' = 1 /\ hist' = <<>>
+    /\ taint' = {} /\ unc' = [x \in Mods |-> "ok"] /\ mech' = {} /\ steps' = 1 /\ hist' = <<>>
     /\ Bound(Rec[l])
     /\ Advance
 
@@ -131,7 +131,7 @@ TraceInit ==
     /\ text = [x \in Mods |-> [items |-> <<>>, pad |-> 0]]
     /\ ver = [x \in Mods |-> 1] /\ opened = {} /\ phase = "idle" /\ pend = "none"
     /\ cache = FreshCache(text) /\ sess = FreshSess(text)
-    /\ taint = {} /\ mech = {} /\ steps = 1 /\ hist = <<>>
+    /\ taint = {} /\ unc = [x \in Mods |-> "ok"] /\ mech = {} /\ steps = 1 /\ hist = <<>>
     /\ TLCSet(1, 1)
 
 TraceNext == TrStart \/ TrReopen \/ TrEdit \/ TrCompileOk \/ TrCompileCancelled \/ TrCompileFailed
